@@ -191,9 +191,9 @@ Definition dec_qop (x : sx) : option qop :=
   end.
 Definition dec_request (x : sx) : option request :=
   match x with
-  | L [B m; B u; a; cl; B b] =>
-      obind (asBool a) (fun a => obind (dec_ostr cl) (fun cl =>
-      Some {| meth := m; uri := u; allowed := a; clen := cl; body := b |}))
+  | L [B m; B u; a; cl; B b; vs] =>
+      obind (asBool a) (fun a => obind (dec_ostr cl) (fun cl => obind (asBool vs) (fun vs =>
+      Some {| meth := m; uri := u; allowed := a; clen := cl; body := b; via_server := vs |})))
   | _ => None
   end.
 Definition dec_mop (x : sx) : option mop :=
@@ -255,7 +255,7 @@ Fixpoint check (O : oracle) (H : handles) (sts : list step) (lk : bool) (m : tbl
           | (mo, res_m, lk') =>
               let m' := apply_omop m mo in
               let failing_write := lk && would_write O H st m in
-              (if res_eqb res res_m then [] else
+              (if res_eqb res (view st res_m) then [] else
                  [if failing_write then "locked_write_reports_failure"%string else res_clause st]) ++
               (if tbl_eqb d (dump m') then [] else
                  [if failing_write then "locked_write_changes_nothing"%string
